@@ -113,6 +113,12 @@ func (o *CandidateNode) UnmarshalYAML(node *yaml.Node, anchorMap map[string]*Can
 		log.Debug("UnmarshalYAML - alias from yaml: %v", o.Tag)
 		o.Kind = AliasNode
 		o.copyFromYamlNode(node, anchorMap)
+		// an alias inside the very node it names (a: &a {<<: *a}) can never be resolved: following it leads back to itself
+		for holder := o.Parent; holder != nil && o.Alias != nil; holder = holder.Parent {
+			if holder == o.Alias {
+				return fmt.Errorf("anchor '%v' value contains itself", node.Alias.Anchor)
+			}
+		}
 		return nil
 	case yaml.ScalarNode:
 		log.Debugf("UnmarshalYAML -  a scalar")
